@@ -382,6 +382,108 @@ pub fn check_lowrank_exact(c: &LrCase) -> Outcome {
     o
 }
 
+/// Fewer draws than dimensions: the estimate cannot be the full covariance, but it has to fit the draws it was computed
+/// from - in the whitened space gradient = -position for every draw of the window (and therefore for their affine
+/// combinations).
+pub struct LowRankFewDraws;
+
+pub fn check_lowrank_few(c: &LrCase) -> Outcome {
+    let mut o = Outcome::pass();
+    let d = c.mean.len();
+    let n = c.xs.len();
+    let mut math = math_for(d);
+    let settings = LowRankSettings { store_mass_matrix: false, gamma: c.gamma, eigval_cutoff: if c.cutoff_one { 1.0 } else { 2.0 } };
+    let mut strat = verif::LowRankMassMatrixStrategy::new(d, settings);
+    let mut mm = verif::LowRankMassMatrix::new(&mut math, settings);
+    let gs: Vec<Vec<f64>> = c.xs.iter().map(|x| gauss_grad(&c.mean, &c.prec, x)).collect();
+    let p0 = verif::make_point(&mut math, &c.xs[0], &gs[0]);
+    let mut rng = ScriptRng::new(&[]);
+    let mut opts = NutsOptions::default();
+    if let Err(e) = MassMatrixAdaptStrategy::<M>::init(&mut strat, &mut math, &mut opts, &mut mm, &p0, &mut rng) {
+        return Outcome::fail("C08:lowrank-init-error", format!("{e}"));
+    }
+    let mut col = MassMatrixAdaptStrategy::<M>::new_collector(&strat, &mut math);
+    for k in 1..n {
+        verif::collector_set(&mut col, &mut math, &c.xs[k], &gs[k], true);
+        MassMatrixAdaptStrategy::<M>::update_estimators(&mut strat, &mut math, &col);
+    }
+    let id0 = mm.transformation_id(&mut math);
+    MassMatrixAdaptStrategy::<M>::adapt(&strat, &mut math, &mut mm);
+    if mm.transformation_id(&mut math) == id0 {
+        return Outcome::skip("estimator declined the update");
+    }
+    o.label(if 2 * n < d { "2n<dim" } else { "n<=dim" });
+    let mut worst = 0.0f64;
+    for (k, x) in c.xs.iter().enumerate() {
+        let (mut xa, mut ga, mut ty, mut tg) = (math.new_array(), math.new_array(), math.new_array(), math.new_array());
+        math.read_from_slice(&mut xa, x);
+        math.read_from_slice(&mut ga, &gs[k]);
+        let ld = mm.inv_transform_normalize(&mut math, &xa, &ga, &mut ty, &mut tg).unwrap_or(f64::NAN);
+        let y = math.box_array(&ty).to_vec();
+        let g = math.box_array(&tg).to_vec();
+        if !ld.is_finite() || y.iter().chain(g.iter()).any(|v| !v.is_finite()) {
+            o.set_fail("C08:lowrank-nonfinite", format!("d={d}, {n} draws: non-finite whitened values / log-determinant {ld}"));
+            return o;
+        }
+        let ny = y.iter().map(|v| v * v).sum::<f64>().sqrt();
+        let res = y.iter().zip(&g).map(|(a, b)| (a + b) * (a + b)).sum::<f64>().sqrt();
+        worst = worst.max(res / (ny + 1e-300));
+    }
+    o.label(format!("few-residual:1e{}", if worst > 0.0 { worst.log10().ceil() as i32 } else { -99 }));
+    if !(worst <= FEW_TOL) {
+        o.set_fail(
+            "C08:lowrank-few-draws",
+            format!("d={d}, {n} draws (cut-off {}): a draw of the window has |whitened gradient + whitened position| = {worst:e} |whitened position| (bound {FEW_TOL:e})", if c.cutoff_one { 1 } else { 2 }),
+        );
+        return o;
+    }
+    o.nontrivial(format!("{d}/{n}/{}", c.cutoff_one));
+    o
+}
+
+/// calibrated: with the default regularisation the relative residual on the unchanged tree reaches about 2e-2 for few draws (distribution in the evidence labels); a wrong subspace gives 0.2 .. 6
+const FEW_TOL: f64 = 0.1;
+
+impl Part for LowRankFewDraws {
+    type Case = LrCase;
+    fn name(&self) -> &'static str {
+        "lowrank-few-draws"
+    }
+    fn rule(&self) -> String {
+        "correlated Gaussians (random SPD precision), d in 4..40, 3 <= n <= d + 1 draws placed with the target's own scales (half of the cases          with 2n < d), gradients exact, default regularisation, eigval_cutoff = 1, precision spectrum within [0.3, 3]; after the update every draw of the window satisfies whitened gradient =          -whitened position to 0.1 relative; non-trivial = every judged case; distinct by (d, n, cut-off)"
+            .into()
+    }
+    fn cases(&self, tier: Tier) -> usize {
+        tier.pick(6_000, 200_000)
+    }
+    fn strategy(&self, _t: Tier) -> BoxedStrategy<LrCase> {
+        (4usize..=40)
+            .prop_flat_map(|d| {
+                (
+                    proptest::collection::vec(-3.0f64..3.0, d),
+                    spd_strategy(d, 0.3, 3.0),
+                    prop_oneof![3usize..=(d / 2).max(3), 3usize..=d + 1].prop_flat_map(move |n| proptest::collection::vec(proptest::collection::vec(-2.0f64..2.0, d), n)),
+                    any::<bool>(),
+                )
+            })
+            .prop_map(|(mean, prec, zs, cutoff_one)| {
+                let d = mean.len();
+                let xs = zs.iter().map(|z| (0..d).map(|i| mean[i] + z[i] / prec[i * d + i].sqrt()).collect()).collect();
+                // judged with eigval_cutoff = 1 only: with a larger cut-off directions with eigenvalues inside the band are left
+                // uncorrected by design
+                let _ = cutoff_one;
+                LrCase { mean, prec, xs, cutoff_one: true, probe: vec![0.0; d], gamma: 1e-5 }
+            })
+            .boxed()
+    }
+    fn check(&self, c: &LrCase) -> Outcome {
+        check_lowrank_few(c)
+    }
+    fn floors(&self) -> Vec<(&'static str, f64)> {
+        vec![("2n<dim", 0.2)]
+    }
+}
+
 impl Part for LowRankExact {
     type Case = LrCase;
     fn name(&self) -> &'static str {
@@ -779,6 +881,10 @@ fn run(ctx: &mut Ctx) {
     if ctx.has_violation() {
         return;
     }
+    ctx.run_part(&LowRankFewDraws);
+    if ctx.has_violation() {
+        return;
+    }
     ctx.run_part(&Robust);
     if ctx.has_violation() {
         return;
@@ -793,6 +899,9 @@ fn replay(ctx: &mut Ctx, v: &serde_json::Value, path: &Path) {
         }
         Some("lowrank-exact") => {
             ctx.replay_file(&LowRankExact, v, path);
+        }
+        Some("lowrank-few-draws") => {
+            ctx.replay_file(&LowRankFewDraws, v, path);
         }
         Some("robustness") => {
             ctx.replay_file(&Robust, v, path);
